@@ -139,4 +139,10 @@ def Forest.neverTarget (h : Nat) : Forest → List Op → Prop
   | _, [] => True
   | f, o :: os => h ∉ o.targets f ∧ Forest.neverTarget h (f.step o) os
 
+instance Forest.decNeverTarget (h : Nat) : ∀ (f : Forest) (ops : List Op), Decidable (Forest.neverTarget h f ops)
+  | _, [] => isTrue trivial
+  | f, o :: os =>
+    have := Forest.decNeverTarget h (f.step o) os
+    inferInstanceAs (Decidable (h ∉ o.targets f ∧ Forest.neverTarget h (f.step o) os))
+
 end XotModel
